@@ -5,6 +5,7 @@ import (
 	"fmt"
 	goio "io"
 	"os"
+	"sort"
 
 	"github.com/evolbioinfo/goalign/align"
 	"github.com/evolbioinfo/goalign/io/fasta"
@@ -104,7 +105,13 @@ var mutationsCmd = &cobra.Command{
 					io.LogError(err)
 					return
 				}
-				for _, m := range muts.Mutations {
+				keys := make([]string, 0, len(muts.Mutations))
+				for k := range muts.Mutations {
+					keys = append(keys, k)
+				}
+				sort.Strings(keys)
+				for _, k := range keys {
+					m := muts.Mutations[k]
 					fmt.Fprintf(f, "%d\t%d\t%c\t%c\t%d\n", t.Id, m.AlignmentSite, m.ParentCharacter, m.ChildCharacter, m.NumEEM)
 				}
 			} else {
@@ -112,7 +119,13 @@ var mutationsCmd = &cobra.Command{
 					io.LogError(err)
 					return
 				}
-				for _, m := range muts.Mutations {
+				keys := make([]string, 0, len(muts.Mutations))
+				for k := range muts.Mutations {
+					keys = append(keys, k)
+				}
+				sort.Strings(keys)
+				for _, k := range keys {
+					m := muts.Mutations[k]
 					fmt.Fprintf(f, "%d\t%d\t%d\t%s\t%c\t%c\t%d\t%d\n", t.Id, m.AlignmentSite, m.BranchIndex, m.ChildNodeName, m.ParentCharacter, m.ChildCharacter, m.NumTips, m.NumTipsWithChildCharacter)
 				}
 			}
